@@ -237,6 +237,9 @@ func DecodeFlowDir(dir string) ([]M, int, error) {
 			switch {
 			case rec.D == "close":
 				f.ev(M{"k": "close"})
+			case rec.D == "refused":
+				// the server is closing: the message it had just read is not admitted and gets no reply
+				f.ev(M{"k": "refused"})
 			case rec.Err != "" && rec.D == "r":
 				f.ev(M{"k": "eof"})
 			case rec.Err != "":
